@@ -2,25 +2,36 @@
 (* Linearizability of recorded histories of the real multi-threaded request pipeline (C09).                            *)
 (* One NDJSON line per history:                                                                                      *)
 (*   {"cfg": C, "mem0": memory, "ops": [{"s": session, "r": request, "rpy": reply octets}, ...],                      *)
-(*    "ev": [{"e": "inv" | "resp", "id": index into ops}, ...]  in real-time order, "final": memory at the end}        *)
+(*    "ev": [{"e": "inv" | "resp", "id": index into ops}, ...]  in real-time order, "final": memory at the end,        *)
+(*    "ftab": the connections open at the end, as [session, connection serial] pairs}                                    *)
+(* A request may be a Forward Open / Forward Close (r.svc "fwdopen" / "fwdclose", r.fo its parameters): its one effect   *)
+(* opens / closes the connection <<session, serial>>; its reply must be the success reply for those parameters.          *)
 (* The history is accepted iff some interleaving of atomic (member) effects, each placed between the invocation and     *)
 (* the response of its request and in member order, explains every reply and the final memory.                         *)
-EXTENDS LogixOps, Json, IOUtils, TLCExt
+EXTENDS ServerOps, Json, IOUtils, TLCExt
 
 Traces == ndJsonDeserialize(IOEnv.TRACE_FILE)
 Members(r) == IF r.svc = "multi" THEN r.ms ELSE <<r>>
-VARIABLES t, l, mem, prog      \* prog[id] = -1 not invoked, k >= 0 members taken effect, 1000 = responded
-tvars == <<t, l, mem, prog>>
+VARIABLES t, l, mem, prog,     \* prog[id] = -1 not invoked, k >= 0 members taken effect, 1000 = responded
+          ctab                \* open connections <<session, serial>>
+tvars == <<t, l, mem, prog, ctab>>
+IsConn(r) == r.svc \in {"fwdopen", "fwdclose"}
 T == Traces[t]
 Ev == T.ev
-TInit == t \in 1 .. Len(Traces) /\ l = 1 /\ mem = Traces[t].mem0 /\ prog = [ i \in 1 .. Len(Traces[t].ops) |-> 0 - 1 ]
+TInit == t \in 1 .. Len(Traces) /\ l = 1 /\ mem = Traces[t].mem0 /\ prog = [ i \in 1 .. Len(Traces[t].ops) |-> 0 - 1 ] /\ ctab = {}
 
 \* the reply octets of member k of operation id (located through the bundle's own offset table)
 MemberReplies(op) == IF op.r.svc = "multi"
                      THEN (IF Len(op.rpy) >= 4 /\ SubSeq(op.rpy, 1, 4) = <<138, 0, 0, 0>> THEN DecMSPBody(SubSeq(op.rpy, 5, Len(op.rpy))) ELSE <<>>)
                      ELSE <<op.rpy>>
+\* the success reply of a Forward Open (the target picks the O->T id of a point-to-point connection: any 4 octets) / Forward Close
+ConnReplyOK(r, cip) ==
+  IF r.svc = "fwdclose" THEN cip = EncForwardCloseReply(r.fo)
+  ELSE LET fo2 == [r.fo EXCEPT !.ot.id = IF r.fo.ot.type = 2 /\ Len(cip) >= 12 THEN SubSeq(cip, 5, 8) ELSE @,
+                               !.to.id = IF r.fo.to.type = 1 /\ Len(cip) >= 12 THEN SubSeq(cip, 9, 12) ELSE @] IN
+       cip = EncForwardOpenReply(fo2, r.fo.ot.rpi, r.fo.to.rpi)
 \* the event at position l happens
-Step == /\ l <= Len(Ev) /\ l' = l + 1 /\ UNCHANGED <<t, mem>>
+Step == /\ l <= Len(Ev) /\ l' = l + 1 /\ UNCHANGED <<t, mem, ctab>>
         /\ LET e == Ev[l] IN
            IF e.e = "inv" THEN prog[e.id] = 0 - 1 /\ prog' = [prog EXCEPT ![e.id] = 0]
            ELSE /\ prog[e.id] = Len(Members(T.ops[e.id].r))                    \* every member has taken effect
@@ -31,12 +42,17 @@ Lin == /\ l <= Len(Ev) /\ UNCHANGED <<t, l>>
        /\ \E id \in 1 .. Len(T.ops) :
             LET op == T.ops[id]  ms == Members(op.r)  rs == MemberReplies(op)  k == prog[id] IN
             /\ k >= 0 /\ k < Len(ms) /\ Len(rs) = Len(ms)
-            /\ \E m2 \in After1(T.cfg, mem, ms[k + 1], rs[k + 1]) : mem' = m2
+            /\ IF IsConn(op.r)
+               THEN /\ ConnReplyOK(op.r, op.rpy) /\ UNCHANGED mem
+                    /\ ctab' = IF op.r.svc = "fwdopen" THEN ctab \cup { <<op.s, op.r.fo.serial>> } ELSE ctab \ { <<op.s, op.r.fo.serial>> }
+               ELSE /\ \E m2 \in After1(T.cfg, mem, ms[k + 1], rs[k + 1]) : mem' = m2
+                    /\ UNCHANGED ctab
             /\ prog' = [prog EXCEPT ![id] = k + 1]
 TNext == Step \/ Lin
 TSpec == TInit /\ [][TNext]_tvars
 \* bookkeeping of the furthest event reached per history (TLC registers), judged in the post-condition
-Reach == IF l = Len(Ev) + 1 /\ mem = T.final THEN TLCSet(t, TRUE) ELSE TRUE
+FinalTab == { <<T.ftab[i][1], T.ftab[i][2]>> : i \in 1 .. Len(T.ftab) }
+Reach == IF l = Len(Ev) + 1 /\ mem = T.final /\ ctab = FinalTab THEN TLCSet(t, TRUE) ELSE TRUE
 ASSUME \A i \in 1 .. Len(Traces) : TLCSet(i, FALSE)
 Accepted == \A i \in 1 .. Len(Traces) : TLCGet(i) \/ PrintT(ToJson([tid |-> i, why |-> "history-not-linearizable"]))
 =============================================================================
